@@ -165,18 +165,18 @@ func (s *MemoryStore) Enqueue(env Envelope) error {
 	now := s.nowFn()
 	s.maybePruneLocked(now)
 
+	// Decide whether the message can be admitted before evicting anything:
+	// a refused enqueue must leave the queue exactly as it was.
+	drop := 0
 	if s.maxDepth > 0 {
-		activeCount := s.activeCountLocked()
-		activeDeliveredCount := s.activeDeliveredCountLocked()
-		for activeCount >= s.maxDepth || (s.deliveredRetentionMaxAge > 0 && activeDeliveredCount >= s.maxDepth) {
-			if s.dropPolicy != "drop_oldest" {
-				return ErrQueueFull
+		drop = s.activeCountLocked() - s.maxDepth + 1
+		if s.deliveredRetentionMaxAge > 0 {
+			if d := s.activeDeliveredCountLocked() - s.maxDepth + 1; d > drop {
+				drop = d
 			}
-			if !s.dropOldestQueuedLocked() {
-				return ErrQueueFull
-			}
-			activeCount = s.activeCountLocked()
-			activeDeliveredCount = s.activeDeliveredCountLocked()
+		}
+		if drop > 0 && (s.dropPolicy != "drop_oldest" || s.queuedCountLocked() < drop) {
+			return ErrQueueFull
 		}
 	}
 
@@ -191,6 +191,11 @@ func (s *MemoryStore) Enqueue(env Envelope) error {
 	if _, exists := s.items[env.ID]; exists {
 		return ErrEnvelopeExists
 	}
+
+	for i := 0; i < drop; i++ {
+		s.dropOldestQueuedLocked()
+	}
+
 	if env.State == "" {
 		env.State = StateQueued
 	}
@@ -237,18 +242,20 @@ func (s *MemoryStore) EnqueueBatch(items []Envelope) (int, error) {
 	now := s.nowFn()
 	s.maybePruneLocked(now)
 
-	// Pre-validate: check depth, duplicates, and prepare copies.
-	activeCount := s.activeCountLocked()
-	activeDeliveredCount := s.activeDeliveredCountLocked()
+	// Pre-validate: check depth, duplicates, and prepare copies. Nothing is
+	// evicted until the whole batch is known to be admissible: a refused
+	// batch must leave the queue exactly as it was.
 	needed := len(items)
+	drop := 0
 	if s.maxDepth > 0 {
-		if s.dropPolicy != "drop_oldest" {
-			if activeCount+needed > s.maxDepth {
-				return 0, ErrQueueFull
+		drop = s.activeCountLocked() + needed - s.maxDepth
+		if s.deliveredRetentionMaxAge > 0 {
+			if d := s.activeDeliveredCountLocked() + needed - s.maxDepth; d > drop {
+				drop = d
 			}
-			if s.deliveredRetentionMaxAge > 0 && activeDeliveredCount+needed > s.maxDepth {
-				return 0, ErrQueueFull
-			}
+		}
+		if drop > 0 && (s.dropPolicy != "drop_oldest" || s.queuedCountLocked() < drop) {
+			return 0, ErrQueueFull
 		}
 	}
 
@@ -291,20 +298,14 @@ func (s *MemoryStore) EnqueueBatch(items []Envelope) (int, error) {
 		prepared = append(prepared, &cpy)
 	}
 
-	// Handle depth overflow with drop_oldest.
-	if s.maxDepth > 0 {
-		for activeCount+len(prepared) > s.maxDepth || (s.deliveredRetentionMaxAge > 0 && activeDeliveredCount+len(prepared) > s.maxDepth) {
-			if !s.dropOldestQueuedLocked() {
-				return 0, ErrQueueFull
-			}
-			activeCount = s.activeCountLocked()
-			activeDeliveredCount = s.activeDeliveredCountLocked()
-		}
-	}
-
 	if pressure := s.memoryPressureStatusLocked(); pressure.Active {
 		s.memoryPressureRejects++
 		return 0, ErrMemoryPressure
+	}
+
+	// Handle depth overflow with drop_oldest.
+	for i := 0; i < drop; i++ {
+		s.dropOldestQueuedLocked()
 	}
 
 	// Commit all items.
@@ -325,6 +326,17 @@ func (s *MemoryStore) activeCountLocked() int {
 	n := 0
 	for _, env := range s.items {
 		if env.State == StateQueued || env.State == StateLeased {
+			n++
+		}
+	}
+	return n
+}
+
+// queuedCountLocked counts items that drop_oldest may evict.
+func (s *MemoryStore) queuedCountLocked() int {
+	n := 0
+	for _, env := range s.items {
+		if env.State == StateQueued {
 			n++
 		}
 	}
